@@ -104,6 +104,7 @@ class Gen(object):
                 if a is not None and a not in [x for x, _ in self.rules]:
                     self.rules.append((a, rng.choice(["domain", "subdomain", "path1", "path2", "path1"])))
         self.backend = backend or "sim"
+        self.bulk = prop in ("C03", "C07", "C08", "C10", "C20") and rng.random() < (0.01 if tier == "quick" else 0.03)
         self.created_prefixes = []  # prefixes named in webentity ops so far (for refs)
 
     # ------------------------------------------------------------------
@@ -153,6 +154,13 @@ class Gen(object):
             return {"op": k, "lru": self.e(self.lru()), "crawled": r.random() < 0.4}
         if k == "add_pages":
             return {"op": k, "lrus": [self.e(self.lru()) for _ in range(r.randint(1, 5))], "crawled": r.random() < 0.5}
+        if k == "add_links" and self.bulk and r.random() < 0.5:
+            # a hub: the same few links submitted thousands of times (lists longer than
+            # the library's internal yield / window sizes)
+            self.bulk = False
+            tgt = self.lru()
+            links = [[enc(self.lru()), enc(tgt)] for _ in range(r.choice([1, 2, 3]))]
+            return {"op": k, "links": links, "repeat": r.choice([2100, 4097, 5001])}
         if k == "add_links":
             n = r.choice([1, 1, 2, 3, 5, 8])
             links = []
